@@ -4,14 +4,15 @@
 # the baseline suite passes with it; then stores it under /verif/seeded/<PID>_<X>/.
 set -u
 PID=$1; X=$2
-WT=/tmp/seed/wt_$PID; OUT=/tmp/seed/out_$PID/$X
+S=${SEEDROOT:-/tmp/seed}
+WT=$S/wt_$PID; OUT=$S/out_$PID/$X
 [ -d "$WT" ] || git -C /repo worktree add -f "$WT" HEAD >/dev/null 2>&1
 cd "$WT" && git checkout -q -- . && git clean -fdq
 BASE=$(git -C /repo rev-parse --short HEAD)
 git -C "$WT" checkout -q --detach "$BASE" 2>/dev/null
 run_demo() {
-  if [ -f "$OUT/demo.py" ]; then (cd "$OUT" && timeout 900 /venv/bin/python demo.py "$WT" >/tmp/seed/demo_$PID$X.log 2>&1); return $?
-  elif [ -f "$OUT/run.sh" ]; then (cd "$OUT" && timeout 900 bash run.sh "$WT" >/tmp/seed/demo_$PID$X.log 2>&1); return $?
+  if [ -f "$OUT/demo.py" ]; then (cd "$OUT" && timeout 900 /venv/bin/python demo.py "$WT" >$S/demo_$PID$X.log 2>&1); return $?
+  elif [ -f "$OUT/run.sh" ]; then (cd "$OUT" && timeout 900 bash run.sh "$WT" >$S/demo_$PID$X.log 2>&1); return $?
   else echo "no demo"; return 99; fi
 }
 run_demo; R0=$?
@@ -24,7 +25,7 @@ git checkout -q -- . ; git clean -fdq
 echo "$PID/$X: demo_without=$R0 demo_with=$R1 suite='$SUITE'"
 OKSUITE=0; echo "$SUITE" | grep -Eq "^(48 passed|1 failed, 47 passed)" && OKSUITE=1
 if [ $R0 -eq 0 ] && [ $R1 -ne 0 ] && [ $OKSUITE -eq 1 ]; then
-  D=/verif/seeded/${PID}_$X; mkdir -p $D; cp -r $OUT/* $D/; rm -rf $D/__pycache__
+  D=/verif/seeded/${PID}_${SEEDTAG:-}$X; mkdir -p $D; cp -r $OUT/* $D/; rm -rf $D/__pycache__
   python3 - "$D" "$PID" "$X" "$BASE" "$R0" "$R1" "$SUITE" <<'PY'
 import json, sys, os
 d, pid, x, base, r0, r1, suite = sys.argv[1:8]
